@@ -195,7 +195,9 @@ pub fn qprime_subset(ctx: &Ctx, rng: &mut Rng, n: usize) -> Option<Vec<usize>> {
         return None;
     }
     let fakes = crate::dirstate::FAKE_PHRASES.len();
-    let mut idx: Vec<usize> = (total - fakes..total).collect();
+    // the fake phrases and the tie phrases are always asked
+    let mut idx: Vec<usize> = (total - fakes - ctx.qprime_ties..total).collect();
+    let n = n + ctx.qprime_ties;
     while idx.len() < n {
         let i = rng.below(total - fakes);
         if !idx.contains(&i) {
@@ -736,6 +738,40 @@ pub fn c16_random(ctx: &Ctx, rng: &mut Rng, seed: u64, perms: Perms, class: usiz
 /// again on one directory (two in-place rebuilds), with reopens and an in-memory session of this build
 /// in between. The sessions of this build must agree among themselves whatever the directory has been
 /// through.
+/// C14 with two instances at once: a directory that needs rebuilding in place (or not at all), a
+/// start while another running instance holds the index writer lock, then further sessions. A start
+/// that cannot get the lock may fail; whatever sessions do answer must agree.
+pub fn c14_contended(ctx: &Ctx, rng: &mut Rng, seed: u64, quick: bool) -> History {
+    let subset = if quick { q14_subset(ctx, rng, 2000) } else { None };
+    let file = Some(ctx.q14_file.display().to_string());
+    let ask = |slot: usize| Op::Ask { slot, phrases: vec![], file: file.clone(), subset: subset.clone(), detail: false };
+    let cpus = cpus_choice(rng).max(2);
+    let (tag, st) = match rng.below(4) {
+        0 => ("a complete directory", state(true, MetaSpec::Current, IndexSpec::Complete)),
+        1 => ("an index written for other data (other documents)", state(true, MetaSpec::OtherHash, IndexSpec::Foreign)),
+        _ => ("a complete index under a stale data hash", state(true, MetaSpec::OtherHash, IndexSpec::Complete)),
+    };
+    let hold_ms = *rng.pick(&[600u64, 1200, 2500]);
+    let mut steps = vec![Step::Fabricate { state: st }];
+    steps.push(Step::Contended { hold_ms, session: ctx.session(cpus, vec![], vec![Op::Open { slot: 0, mode: Mode::Disk, plan: random_plan(rng) }, ask(0)]) });
+    steps.push(Step::Start { session: ctx.session(cpus, vec![], vec![Op::Open { slot: 0, mode: Mode::Disk, plan: random_plan(rng) }, ask(0)]) });
+    steps.push(Step::Start { session: ctx.session(1, vec![], vec![Op::Open { slot: 0, mode: Mode::Mem, plan: Plan::default() }, ask(0)]) });
+    steps.push(Step::Start { session: ctx.session(cpus, vec![], vec![Op::Open { slot: 0, mode: Mode::Disk, plan: random_plan(rng) }, ask(0)]) });
+    History { property: "C14".into(), seed, label: format!("{tag}; a start ({cpus} cpus) beside an instance holding the writer lock for {hold_ms} ms; reopened; in memory; reopened"), steps }
+}
+
+/// C15 with two instances at once: from a listed state, a start while another running instance holds
+/// the index writer lock (it may fail: that is the fault), then undisturbed starts that must recover.
+pub fn c15_contended(ctx: &Ctx, tag: &str, st: &StateSpec, hold_ms: u64, subset: Option<Vec<usize>>, seed: u64) -> History {
+    let steps = vec![
+        Step::Fabricate { state: st.clone() },
+        Step::Contended { hold_ms, session: c15_session_ordered(ctx, vec![], subset.clone(), false) },
+        Step::Start { session: c15_session_ordered(ctx, vec![], subset.clone(), false) },
+        Step::Start { session: c15_session_ordered(ctx, vec![], subset, true) },
+    ];
+    History { property: "C15".into(), seed, label: format!("{tag}; a start beside an instance holding the writer lock for {hold_ms} ms; two more starts"), steps }
+}
+
 pub fn c14_two_builds(ctx: &Ctx, rng: &mut Rng, seed: u64, quick: bool) -> History {
     let subset = if quick { q14_subset(ctx, rng, 2000) } else { None };
     let file = Some(ctx.q14_file.display().to_string());
@@ -924,7 +960,23 @@ fn literal(rng: &mut Rng) -> String {
 
 pub fn c18_text(pool: &PhrasePool, rng: &mut Rng) -> String {
     let p = |rng: &mut Rng| phrase(pool, rng);
-    match rng.below(24) {
+    // a quantity written with repeated division ("9.81 m/s/s") cast to the derived unit it is meant
+    // to be: how such a chain is read is a decision of the evaluator (the code has an unfinished
+    // "acceleration bias"), taken - and possibly retaken - in the middle of evaluating a query
+    let chain_cast = |rng: &mut Rng| -> String {
+        let chain = *rng.pick(&["m/s/s", "km/h/s", "kg*m/s/s", "m/s/s/s", "N*m/s", "kg/m/s/s", "ft/s/s", "m/s / s", "km/s/s", "J/s/s"]);
+        let target = *rng.pick(&["m/s^2", "m/s^2", "N", "W", "Pa", "m/s^3", "km/h^2", "ft/s^2", "km/s^2"]);
+        format!("{} {chain} to {target}", literal(rng))
+    };
+    match rng.below(28) {
+        24 => format!("({}) * {}", chain_cast(rng), p(rng)),
+        25 => format!("{} * {}", p(rng), chain_cast(rng)),
+        26 => format!("({}) ({}) ({})", p(rng), chain_cast(rng), p(rng)),
+        27 => match rng.below(3) {
+            0 => format!("({}) * {} to N", chain_cast(rng), p(rng)),
+            1 => format!("{} / ({})", p(rng), chain_cast(rng)),
+            _ => format!("({}) + {} + ({})", chain_cast(rng), p(rng), chain_cast(rng)),
+        },
         0 | 1 => p(rng),
         2 => format!("{} * {}", p(rng), literal(rng)),
         3 => format!("{} * {}", literal(rng), p(rng)),
@@ -1297,6 +1349,19 @@ pub fn c19_query(pool: &PhrasePool, rng: &mut Rng) -> String {
             _ => format!("1 / {}", rng.range(2, 13)),
         }
     };
+    if rng.chance(1, 12) {
+        // decimals whose reduced denominator has as many digits as fit a 64- or 128-bit integer, or
+        // one more or less (10^19, 10^38): with and without a unit, as a literal or reached by division
+        let k = *rng.pick(&[18usize, 19, 20, 37, 38, 38, 39, 40]);
+        let u = if rng.chance(1, 3) { format!(" {}", unit(rng)) } else { String::new() };
+        return match rng.below(5) {
+            0 => format!("{}e-{k}{u}", rng.range(1, 99)),
+            1 => format!("0.{}{u}", (0..k).map(|i| char::from(b'0' + if i + 1 == k { 1 + 2 * rng.below(5) as u8 } else { rng.below(10) as u8 })).collect::<String>()),
+            2 => format!("{}{u} / {}e{}", rng.range(1, 9), rng.range(1, 9), k - 1),
+            3 => format!("{}.{}e-{}{u}", rng.range(1, 9), rng.range(1, 9), k - 1),
+            _ => format!("1 / {}{}", rng.range(1, 9), (0..k - 1).map(|_| char::from(b'0' + rng.below(10) as u8)).collect::<String>()),
+        };
+    }
     match rng.below(40) {
         37 | 38 | 39 => {
             // signed values: negative results, negative bases and exponents, results that are
@@ -1389,12 +1454,29 @@ pub fn c19_query(pool: &PhrasePool, rng: &mut Rng) -> String {
         }
         36 => {
             // units raised to large powers (two and three digit exponents, also reached by arithmetic)
-            let e = *rng.pick(&[9usize, 10, 11, 19, 20, 21, 60, 99, 100, 101, 120, 999, 1000, 1024]);
-            let u = *rng.pick(&["m", "s", "kg", "km", "V", "decade"]);
+            // ... and exponents around every power of ten up to the end of 32 bits (digit counts)
+            let e = if rng.chance(1, 2) {
+                *rng.pick(&[9usize, 10, 11, 19, 20, 21, 60, 99, 100, 101, 120, 999, 1000, 1024])
+            } else {
+                let k = rng.range(3, 9) as u32;
+                let p = 10usize.pow(k);
+                match rng.below(6) {
+                    0 => p,
+                    1 => p + 1,
+                    2 => p - 1,
+                    3 => p - 1 - rng.below(8),
+                    4 => p - 1 - rng.below(p / 1000 + 1),
+                    _ => *rng.pick(&[2147483647usize, 2147483646, 1073741824, 4294967, 16777216, 16777217]),
+                }
+            };
+            // (a prefixed or derived unit raised to such a power is a number of millions of digits, which
+            // the tool takes minutes to hours to print: not a question this check asks)
+            let u = if e > 1100 { *rng.pick(&["m", "s", "V", "A"]) } else { *rng.pick(&["m", "s", "kg", "km", "V", "decade"]) };
             match rng.below(4) {
                 0 => format!("{} {u}^{e}", rng.range(1, 9)),
                 1 => format!("{} {u}^-{e}", rng.range(1, 9)),
-                2 => format!("{} {u}^{} * {} {u}^{}", rng.range(1, 9), e / 2, rng.range(1, 9), e - e / 2),
+                2 if e < 1_000_000_000 => format!("{} {u}^{} * {} {u}^{}", rng.range(1, 9), e / 2, rng.range(1, 9), e - e / 2),
+                2 => format!("{} / {u}^{e}", rng.range(1, 9)),
                 _ => format!("{}.5 {u}^{e} / 2 s^{}", rng.range(1, 9), rng.range(2, 130)),
             }
         }
